@@ -24,6 +24,7 @@ import contextlib
 import json
 import math
 import random
+import threading
 from unittest import mock
 
 from harness.common import Driver, LeanError, Report, f2b
@@ -686,6 +687,46 @@ def oracle_backward(rep: Report, seed: int, count: int) -> None:
             rep.fail(f"EvolveStateVector.backward vs dense Frechet derivative: {detail}", info)
     rep.extra["dk_backward_cases"] = count
     rep.extra["dk_backward_worst_ratio"] = worst
+
+
+# ------------------------------------------------------------------------------------------------ second Lean stage
+PROP_MODULE = "EmuVerif.Props.C30Frechet"
+AUDIT = "Audit/C30Frechet.lean"
+
+
+class LeanStage2(threading.Thread):
+    """`lean_stage` for Props/C30Frechet.lean + Audit/C30Frechet.lean on a private Report, run while the Python side works
+    (pattern of kry_common.LeanStageThread; the two-audit merge is the one of c26.py). `merge(rep)` joins, re-raises, and
+    adds obligations / discharged / broken / checker command to the caller's report."""
+
+    def __init__(self, tier: str, seed: int):
+        super().__init__(daemon=True)
+        self.rep2 = Report("C30", tier, seed)
+        self.thorough = tier == "thorough"
+        self.exc = None
+
+    def run(self):
+        from harness.common import lean_stage
+        try:
+            lean_stage(self.rep2, PROP_MODULE, AUDIT, thorough=self.thorough)
+        except BaseException as e:
+            self.exc = e
+
+    def merge(self, rep: Report) -> None:
+        self.join()
+        if self.exc is not None:
+            raise self.exc
+        r2 = self.rep2
+        if not r2.broken and len(r2.discharged) != len(r2.obligations):
+            r2.broke("lean stage (C30Frechet) ended without discharging every obligation")
+        rep.obligations = list(rep.obligations) + [o for o in r2.obligations if o not in rep.obligations]
+        rep.discharged = list(rep.discharged) + [o for o in r2.discharged if o not in rep.discharged]
+        for b in r2.broken:
+            rep.broke(b)
+        rep.checker_cmd = (rep.checker_cmd + " ; " if rep.checker_cmd else "") + r2.checker_cmd
+        rep.extra["axioms_used"] = sorted(set(rep.extra.get("axioms_used", [])) | set(r2.extra.get("axioms_used", [])))
+        if "leanchecker_rc" in r2.extra:
+            rep.extra["leanchecker_rc_frechet"] = r2.extra["leanchecker_rc"]
 
 
 # ------------------------------------------------------------------------------------------------ entry points
